@@ -92,6 +92,12 @@ def build_module(ctx, case, ifaces, template=None, extra_cfg=None, extra_files=N
         cfg["packages"][srcpath]["config"] = {"template-data": dict(case["td_pkg"])}
     if case.get("onefile"):
         cfg["filename"] = "mock_all_test.go" if pl in ("inpkg-test", "xtest") else "mock_all.go"
+    if case.get("stale_outputs"):
+        # the tree an older configuration left behind: every designated output exists already and is much longer than what will be written now
+        cfg["force-file-write"] = True
+        stale = "// Code generated by mockery; DO NOT EDIT.\n\npackage %s\n\n" % outpkg + "".join("// line %04d of an older, longer generation of this file\n" % k for k in range(6000))
+        for i in ifaces:
+            files[out_file({"outdir": outdir, "onefile": bool(case.get("onefile"))}, i, pl)] = stale
     files[".mockery.yml"] = json.dumps(cfg, ensure_ascii=False, indent=1)
     if extra_files:
         files.update(extra_files)
